@@ -85,6 +85,7 @@ type machine struct {
 	allEntangled bool
 	scratch  *model
 	domDecided int
+	openFiles map[*value]bool // file-handle model: handles returned by os.Open and not yet closed
 
 	// per-machine
 	globals   map[*ssa.Global]*value
